@@ -149,13 +149,15 @@ def run_one(ch, cfg):
             tgt = fsop0 + (fp // 8) % 16
 
             def ffn(op, path, i, tgt=tgt, n=fp % 8, life=life):
-                if i == tgt and path == PIN_PATH:
+                # the n-th file operation of the lifetime, whatever file it is on (the unchanged
+                # manager touches the PIN file only; a change may add files next to it)
+                if i == tgt:
                     f = fs_fault_for(op, n)
                     if f is not None:
                         life["fault"] = ("fs", op, f)
                         if op in ("open-w", "write", "close", "flush") and \
                                 len(dev.newpin_acks) > acks_before:
-                            life["commit_fault"] = True
+                            life["commit_fault"] = "pin-file" if path == PIN_PATH else "other-file"
                     return f
                 return None
             fs.fault_fn = ffn
@@ -274,8 +276,10 @@ def run_one(ch, cfg):
         if new_acks:
             if crashed:
                 cause = "ack-then-crash-before-commit"
-            elif life["commit_fault"]:
+            elif life["commit_fault"] == "pin-file":
                 cause = "commit-io-error"
+            elif life["commit_fault"]:
+                cause = "io-error-on-another-file"
             elif life["lost_ack"]:
                 cause = "ack-lost-on-link"
             if end_file is None or end_file.strip() != new_acks[-1]:
